@@ -226,14 +226,31 @@ def path_text(steps):
     return ".".join("%s:%s" % (s[2], range_text(s[3])) for s in steps)
 
 
-def gen_set_arg(rng, info, nodeset):
-    """(text, format or None=guessed) of a set argument"""
+def gen_set_arg(rng, info, nodeset, fmt=None):
+    """text of a set argument, in the given input format (None: any, the tool guesses)"""
     n = max(1, len(info.levels.get(-3, [])) if nodeset else info.npus())
     bits = [i for i in range(n + 2) if rng.random() < 0.4]
     if not bits:
         bits = [rng.randrange(n)]
     v = sum(1 << b for b in bits)
     r = rng.random()
+    if fmt == "list":
+        parts = []
+        i = 0
+        sb = sorted(bits)
+        while i < len(sb):
+            j = i
+            while j + 1 < len(sb) and sb[j + 1] == sb[j] + 1:
+                j += 1
+            parts.append("%d" % sb[i] if i == j else "%d-%d" % (sb[i], sb[j]))
+            i = j + 1
+        if r < 0.1:
+            parts[-1] = parts[-1].split("-")[0] + "-"
+        return ",".join(parts)
+    if fmt == "taskset":
+        return ("0x%x" % v) if r < 0.6 else ("%x" % v) if r < 0.9 else "0xf...f%x" % v
+    if fmt == "hwloc":
+        r = r * 0.7
     if r < 0.35:
         return "0x%x" % v
     if r < 0.5:
@@ -267,8 +284,9 @@ def gen_cmdline(rng, info, spec_only=False):
     for o in ["-p", "--pi", "--po", "-l", "-n", "--ni", "--no", "-q"]:
         if rng.random() < (0.10 if o != "-q" else 0.3):
             pre.append(("opt", o))
-    if rng.random() < 0.12:
-        pre.append(("opt", "--cif", rng.choice(FORMATS)))
+    cif = None
+    if rng.random() < 0.15:
+        cif = rng.choice(FORMATS)
     locs = []
     for k in range(nloc):
         mode = rng.choice(modes) if k else rng.choice(["", "", "", "", "~", "x", "^"])
@@ -279,7 +297,7 @@ def gen_cmdline(rng, info, spec_only=False):
             locs.append(("loc", mode, "path", gen_path(rng, info, deeper_only=spec_only or rng.random() < 0.8)))
         else:
             nodeset = any(i[1] in ("-n", "--ni") for i in pre)
-            locs.append(("loc", mode, "set", gen_set_arg(rng, info, nodeset)))
+            locs.append(("loc", mode, "set", gen_set_arg(rng, info, nodeset, cif)))
     # output mode
     out = ("set",)
     r = rng.random()
@@ -324,6 +342,8 @@ def gen_cmdline(rng, info, spec_only=False):
     seq = list(locs)
     for o in pre + post:
         seq.insert(rng.randrange(len(seq) + 1), o)
+    if cif:
+        seq.insert(0, ("opt", rng.choice(["--cif", "--cpuset-input-format"]), cif))
     args = []
     for it in seq:
         if it[0] == "opt":
